@@ -1226,8 +1226,8 @@ theorem fds_maildirStdin (env : PEnv) (input : Bytes) (tr : Trace) (h : FdsAre t
   | err e => exact none0 _ _ rfl h1
   | eof => exact none0 _ _ rfl h1
 
-theorem fds_closeStdin (md : Maildir) (tr : Trace) (h : FdsAre tr md.dirH.toList) :
-    wp R ForkI (closeStdin md) (fun _ tr' => FdsAre tr' []) tr := by
+theorem fds_closeStdin (fuel : Nat) (md : Maildir) (tr : Trace) (h : FdsAre tr md.dirH.toList) :
+    wp R ForkI (closeStdin fuel md) (fun _ tr' => FdsAre tr' []) tr := by
   unfold closeStdin
   cases hdir : md.dirH with
   | none =>
@@ -1242,7 +1242,7 @@ theorem fds_closeStdin (md : Maildir) (tr : Trace) (h : FdsAre tr md.dirH.toList
     simp only [bind_eq, pure_eq, call_bind, call_bind', ret_bind]
     refine wp_call (by plain) fun r0 _ => ?_
     have h0 : FdsAre (tr ++ [(Call.rewinddir d, r0)]) [d] := h.other rfl (.inl rfl)
-    refine wp_bind_ext (wp_nofd' (nofd_closeLoop d 64) h0) ?_
+    refine wp_bind_ext (wp_nofd' (nofd_closeLoop d fuel) h0) ?_
     intro _ L hL
     refine wp_call (by plain) fun r1 _ => ?_
     refine wp_call (by plain) fun r2 _ => ?_
@@ -1265,12 +1265,12 @@ theorem fds_paths (env : PEnv) (orc : EvalOracles) (input : Bytes) (b : ConfBloc
       · refine wp_bind_ext (fds_maildirStdin env input tr h) ?_
         rintro x L ⟨hop, hx⟩
         split
-        · refine wp_bind_ext (fds_closeStdin x.1 _ hx) ?_
+        · refine wp_bind_ext (fds_closeStdin _ x.1 _ hx) ?_
           intro _ L2 h2
           exact ih _ _ h2
-        · refine wp_bind_ext (fds_walk env orc b.expr 64 x.1 _ _ hop hx) ?_
+        · refine wp_bind_ext (fds_walk env orc b.expr _ x.1 _ _ hop hx) ?_
           rintro y L2 ⟨hop2, hy⟩
-          refine wp_bind_ext (fds_closeStdin y.2 _ hy) ?_
+          refine wp_bind_ext (fds_closeStdin _ y.2 _ hy) ?_
           intro _ L3 h3
           exact ih _ _ h3
       · split
